@@ -555,7 +555,38 @@ fn gen_leaf(rng: &mut Rng, ctx: &Ctx, o: &GenOpts) -> Expr {
     }
 }
 
+/// a call with 100..255 arguments, one of which may itself be such a call or sit next to other pending operands:
+/// more than 255 operands are pending at once (the decoders' operand stacks have no bound)
+fn gen_wide_call(rng: &mut Rng, ctx: &Ctx, o: &GenOpts) -> Expr {
+    let wide = |rng: &mut Rng, n: usize| -> Vec<Expr> {
+        (0..n).map(|_| if rng.chance(1, 8) { gen_leaf(rng, ctx, o) } else { Expr::Int(rng.below(1000) as u16) }).collect()
+    };
+    let f = *rng.pick(&[4u16, 0, 5, 6, 7, 36, 37]); // SUM COUNT AVERAGE MIN MAX AND OR
+    match rng.below(3) {
+        0 => {
+            // x + F(255 args): 256 pending
+            let n = rng.range(250, 255) as usize;
+            Expr::Bin(3, Box::new(gen_leaf(rng, ctx, o)), Box::new(Expr::FuncVar(rng.below(3) as u8, f, wide(rng, n))))
+        }
+        1 => {
+            // F(200 args, G(100 args))
+            let n = rng.range(150, 254) as usize;
+            let m = rng.range(100, 255) as usize;
+            let mut args = wide(rng, n);
+            args.push(Expr::FuncVar(rng.below(3) as u8, f, wide(rng, m)));
+            Expr::FuncVar(rng.below(3) as u8, *rng.pick(&[4u16, 6, 7]), args)
+        }
+        _ => {
+            let n = rng.range(100, 255) as usize;
+            Expr::FuncVar(rng.below(3) as u8, f, wide(rng, n))
+        }
+    }
+}
+
 fn gen_expr(rng: &mut Rng, depth: u32, ctx: &Ctx, o: &GenOpts) -> Expr {
+    if depth >= 2 && rng.chance(1, 150) {
+        return gen_wide_call(rng, ctx, o);
+    }
     if depth == 0 || rng.chance(30, 100) {
         return gen_leaf(rng, ctx, o);
     }
@@ -946,6 +977,9 @@ fn corpus() -> Vec<&'static str> {
         "enc S=5331 N= X=0 | FV 0 100 5 AC 10,14,18,22,26 I 1 AT 8 3 I 2 AT 8 3 I 3 AT 8 3 I 4 AT 8 0 I 5",
         "enc S=5331 N= X=0 | FV 0 1 3 AT 2 5 B 1 AT 8 9 I 2 AT 8 3 I 3",
         // P5 xlsb PtgMemFunc nested without bound: stack overflow (abort); run in a child process with a 256 KiB stack
+        // more than 255 operands pending at once: 7+SUM(255 args), SUM(200 args, SUM(100 args))
+        "enc S=5331 N= X=0 | OP 3 I 7 FV 0 4 255 I 0 I 1 I 2 I 3 I 4 I 5 I 6 I 7 I 8 I 9 I 10 I 11 I 12 I 13 I 14 I 15 I 16 I 17 I 18 I 19 I 20 I 21 I 22 I 23 I 24 I 25 I 26 I 27 I 28 I 29 I 30 I 31 I 32 I 33 I 34 I 35 I 36 I 37 I 38 I 39 I 40 I 41 I 42 I 43 I 44 I 45 I 46 I 47 I 48 I 49 I 50 I 51 I 52 I 53 I 54 I 55 I 56 I 57 I 58 I 59 I 60 I 61 I 62 I 63 I 64 I 65 I 66 I 67 I 68 I 69 I 70 I 71 I 72 I 73 I 74 I 75 I 76 I 77 I 78 I 79 I 80 I 81 I 82 I 83 I 84 I 85 I 86 I 87 I 88 I 89 I 90 I 91 I 92 I 93 I 94 I 95 I 96 I 97 I 98 I 99 I 100 I 101 I 102 I 103 I 104 I 105 I 106 I 107 I 108 I 109 I 110 I 111 I 112 I 113 I 114 I 115 I 116 I 117 I 118 I 119 I 120 I 121 I 122 I 123 I 124 I 125 I 126 I 127 I 128 I 129 I 130 I 131 I 132 I 133 I 134 I 135 I 136 I 137 I 138 I 139 I 140 I 141 I 142 I 143 I 144 I 145 I 146 I 147 I 148 I 149 I 150 I 151 I 152 I 153 I 154 I 155 I 156 I 157 I 158 I 159 I 160 I 161 I 162 I 163 I 164 I 165 I 166 I 167 I 168 I 169 I 170 I 171 I 172 I 173 I 174 I 175 I 176 I 177 I 178 I 179 I 180 I 181 I 182 I 183 I 184 I 185 I 186 I 187 I 188 I 189 I 190 I 191 I 192 I 193 I 194 I 195 I 196 I 197 I 198 I 199 I 200 I 201 I 202 I 203 I 204 I 205 I 206 I 207 I 208 I 209 I 210 I 211 I 212 I 213 I 214 I 215 I 216 I 217 I 218 I 219 I 220 I 221 I 222 I 223 I 224 I 225 I 226 I 227 I 228 I 229 I 230 I 231 I 232 I 233 I 234 I 235 I 236 I 237 I 238 I 239 I 240 I 241 I 242 I 243 I 244 I 245 I 246 I 247 I 248 I 249 I 250 I 251 I 252 I 253 I 254",
+        "enc S=5331 N= X=0 | FV 0 4 201 I 0 I 1 I 2 I 3 I 4 I 5 I 6 I 7 I 8 I 9 I 10 I 11 I 12 I 13 I 14 I 15 I 16 I 17 I 18 I 19 I 20 I 21 I 22 I 23 I 24 I 25 I 26 I 27 I 28 I 29 I 30 I 31 I 32 I 33 I 34 I 35 I 36 I 37 I 38 I 39 I 40 I 41 I 42 I 43 I 44 I 45 I 46 I 47 I 48 I 49 I 50 I 51 I 52 I 53 I 54 I 55 I 56 I 57 I 58 I 59 I 60 I 61 I 62 I 63 I 64 I 65 I 66 I 67 I 68 I 69 I 70 I 71 I 72 I 73 I 74 I 75 I 76 I 77 I 78 I 79 I 80 I 81 I 82 I 83 I 84 I 85 I 86 I 87 I 88 I 89 I 90 I 91 I 92 I 93 I 94 I 95 I 96 I 97 I 98 I 99 I 100 I 101 I 102 I 103 I 104 I 105 I 106 I 107 I 108 I 109 I 110 I 111 I 112 I 113 I 114 I 115 I 116 I 117 I 118 I 119 I 120 I 121 I 122 I 123 I 124 I 125 I 126 I 127 I 128 I 129 I 130 I 131 I 132 I 133 I 134 I 135 I 136 I 137 I 138 I 139 I 140 I 141 I 142 I 143 I 144 I 145 I 146 I 147 I 148 I 149 I 150 I 151 I 152 I 153 I 154 I 155 I 156 I 157 I 158 I 159 I 160 I 161 I 162 I 163 I 164 I 165 I 166 I 167 I 168 I 169 I 170 I 171 I 172 I 173 I 174 I 175 I 176 I 177 I 178 I 179 I 180 I 181 I 182 I 183 I 184 I 185 I 186 I 187 I 188 I 189 I 190 I 191 I 192 I 193 I 194 I 195 I 196 I 197 I 198 I 199 FV 0 4 100 I 0 I 1 I 2 I 3 I 4 I 5 I 6 I 7 I 8 I 9 I 10 I 11 I 12 I 13 I 14 I 15 I 16 I 17 I 18 I 19 I 20 I 21 I 22 I 23 I 24 I 25 I 26 I 27 I 28 I 29 I 30 I 31 I 32 I 33 I 34 I 35 I 36 I 37 I 38 I 39 I 40 I 41 I 42 I 43 I 44 I 45 I 46 I 47 I 48 I 49 I 50 I 51 I 52 I 53 I 54 I 55 I 56 I 57 I 58 I 59 I 60 I 61 I 62 I 63 I 64 I 65 I 66 I 67 I 68 I 69 I 70 I 71 I 72 I 73 I 74 I 75 I 76 I 77 I 78 I 79 I 80 I 81 I 82 I 83 I 84 I 85 I 86 I 87 I 88 I 89 I 90 I 91 I 92 I 93 I 94 I 95 I 96 I 97 I 98 I 99",
         // more than 1024 shared-formula groups alive at once (a wide filled-down table)
         "xlsxshared 1500 7",
         "deep xlsb 10000",
@@ -1227,7 +1261,12 @@ fn gen_file_case(rng: &mut Rng, wide: bool) -> FileCase {
         ctx.xtis.push(*rng.pick(&[-1i16, -2, 9, 300]));
         rep_dangling(&mut ctx, rng);
     }
+    // sometimes the first tabs carry no cells (they may then be written as chart / module / macro sheets)
+    let empty_tabs = if ctx.sheets.len() >= 2 && rng.chance(1, 3) { rng.range(1, ctx.sheets.len() as u64 - 1) as usize } else { 0 };
     for sh in 0..ctx.sheets.len() {
+        if sh < empty_tabs {
+            continue;
+        }
         // a window of at most 64 x 32 cells anywhere in the sheet (dense Range: bounding box stays small)
         let max_row: u32 = if wide { 1_048_575 } else { 65_535 };
         let max_col: u32 = if wide { 16_383 } else { 255 };
@@ -1539,6 +1578,12 @@ fn run_file_case(fc: &FileCase, drv: &mut Driver, rep: &mut Report) {
             }
             // records in row-major order, as Excel writes them (`Range::from_sparse` expects sorted rows)
             sh.cells.sort_by_key(|c| (c.row, c.col));
+            // a sheet without cells may be a chart sheet, a VB module or a macro sheet: it still has its tab index,
+            // which is what the XTI entries of 3-D references count
+            if sh.cells.is_empty() && lrng.chance(2, 3) {
+                sh.kind = *lrng.pick(&[2u8, 6, 1]);
+                rep.count("file_xls_non_worksheet_tab");
+            }
             book.sheets.push(sh);
         }
         let bytes = book.to_bytes(&mut lrng);
